@@ -498,6 +498,32 @@ Section Proofs.
   Qed.
 
 
+  (* the token kind scanNumber returns *)
+  Definition ret_tok {A} (P : tok -> Prop) (m : outcome (tok * A)) : Prop :=
+    match m with Ok (t, _) => P t | _ => True end.
+
+  Lemma ret_tok_bind {A B} (P : tok -> Prop) (m : outcome B) (k : B -> outcome (tok * A)) :
+    (forall b, ret_tok P (k b)) -> ret_tok P (bind m k).
+  Proof. destruct m; simpl; auto. Qed.
+
+  Lemma wp_and_ret {A} (F : Prop) (P : tok * A -> Prop) (R : tok -> Prop) m :
+    wp F P m -> ret_tok R m -> wp F (fun p => P p /\ R (fst p)) m.
+  Proof. destruct m as [[t a]| |]; simpl; auto. Qed.
+
+  Ltac rt :=
+    repeat first
+      [ apply ret_tok_bind; intros
+      | match goal with
+        | |- ret_tok _ (if ?b then _ else _) => destruct b
+        | |- ret_tok _ (let '(_, _) := ?p in _) => destruct p
+        end ].
+
+  Lemma scan_number_tok seen s : ret_tok (fun t => t = INT \/ t = FLOAT) (scan_number src seen s).
+  Proof.
+    unfold scan_number, num_fraction, num_exponent, num_exit.
+    rt; simpl; auto.
+  Qed.
+
   (* ---- strings ---- *)
   (* like adv, but an interpolation may have been pushed on the quote stack *)
   Definition advq (s s' : st) : Prop :=
@@ -1030,12 +1056,13 @@ Section Proofs.
       destruct (c =? 126); [apply FIN; [apply adv_refl; exact I1 | assumption | discriminate]|].
       destruct (c =? 46).
       { destruct ((48 <=? ch s1) && (ch s1 <=? 57)).
-        - eapply wp_bind; [apply (scan_number_true_spec _ s1 I1) | exact (fun x => x) |].
+        - eapply wp_bind;
+            [apply wp_and_ret; [apply (scan_number_true_spec _ s1 I1) | apply scan_number_tok]
+            | exact (fun x => x) |].
           { adv_facts. lia. }
-          intros [t s2] A2. prj.
+          intros [t s2] (A2 & Ht). prj.
           adv_facts. apply wp_finish; try assumption; try lia.
-          (* scanNumber only returns INT or FLOAT; INTERPOLATION needs a quote stack fact *)
-          intros Ht. exfalso. revert Ht. admit.
+          intros ->. destruct Ht; discriminate.
         - destruct (ch s1 =? 46).
           + apply wp_next_then; [exact I1|]. intros s2 A2 _.
             destruct (ch s2 =? 46).
@@ -1043,7 +1070,287 @@ Section Proofs.
               apply FIN; [eapply adv_trans; eassumption | assumption | discriminate].
             * apply FIN; [apply adv_errf; assumption | assumption | discriminate].
           + apply FIN; [apply adv_refl; exact I1 | assumption | discriminate]. }
-      admit.
-    Admitted.
+      assert (SIMPLE : forall t ie, t <> INTERPOLATION -> wp (FS s) (scan_post s) (finish t offset ie s1)).
+      { intros t ie Ht. apply FIN; [apply adv_refl; exact I1 | assumption | assumption]. }
+      destruct (c =? 44); [apply SIMPLE; discriminate|].
+      destruct (c =? 40); [apply SIMPLE; discriminate|].
+      destruct (c =? 41); [apply SIMPLE; discriminate|].
+      destruct (c =? 91); [apply SIMPLE; discriminate|].
+      destruct (c =? 93); [apply SIMPLE; discriminate|].
+      destruct (c =? 123); [apply SIMPLE; discriminate|].
+      destruct (c =? 125); [apply SIMPLE; discriminate|].
+      destruct (c =? 43); [apply SIMPLE; discriminate|].
+      destruct (c =? 45); [apply SIMPLE; discriminate|].
+      destruct (c =? 42); [apply SIMPLE; discriminate|].
+      destruct (c =? 47) eqn:E47.
+      { (* '/' *)
+        destruct (ch s1 =? 47); [|apply SIMPLE; discriminate].
+        destruct (ins s1) eqn:Ei.
+        - (* a comma is inserted before the comment; the scanner is reset to its start *)
+          assert (offset = off sd) by lia. subst offset.
+          pose proof (inv_cur _ Id). pose proof (inv_rd _ Id). pose proof (inv_qs_off _ Id).
+          adv_facts.
+          unfold scan_post; prj; unfold mu; prj.
+          split.
+          { constructor; prj; try lia. - exact (inv_qs _ I1). - intros Hq. apply H1. congruence. }
+          replace (ins s) with true by congruence.
+          ivs; try lia; try discriminate; auto.
+        - eapply wp_bind; [apply (scan_comment_spec _ s1 I1) | exact (fun x => x) |].
+          { adv_facts. lia. }
+          intros s2 A2. destruct (negb scan_comments).
+          + adv_facts. apply scan_rec_later; prj; try lia; try (apply Inv_set_ins; assumption); try (left; reflexivity).
+          + apply FIN; [assumption | assumption | discriminate]. }
+      destruct (c =? 60).
+      { destruct (ch s1 =? 45); [apply NXT; [assumption | discriminate] | apply OP2; [assumption | discriminate | discriminate]]. }
+      destruct (c =? 62); [apply OP2; [assumption | discriminate | discriminate]|].
+      destruct (c =? 61).
+      { destruct (ch s1 =? 126); [apply NXT; [assumption | discriminate] | apply OP2; [assumption | discriminate | discriminate]]. }
+      destruct (c =? 33).
+      { destruct (ch s1 =? 126); [apply NXT; [assumption | discriminate] | apply OP2; [assumption | discriminate | discriminate]]. }
+      destruct (c =? 38).
+      { destruct (ch s1 =? 38); [apply NXT; [assumption | discriminate] | apply SIMPLE; discriminate]. }
+      destruct (c =? 124).
+      { destruct (ch s1 =? 124); [apply NXT; [assumption | discriminate] | apply SIMPLE; discriminate]. }
+      apply FIN; [apply adv_errf_if, adv_refl; exact I1 | assumption | discriminate].
+    Qed.
+
+    Notation scan_body := (scan_body src isLetterU isDigitU scan_comments dont_insert scan_rec attr_rec).
+    Notation attr_body := (attr_body src scan_rec attr_rec).
+
+    Lemma is_letter_ident c : is_letter isLetterU c = true -> is_ident_part isLetterU isDigitU c = true.
+    Proof. unfold is_ident_part. intros ->. reflexivity. Qed.
+
+    Lemma scan_body_spec s : Inv s -> wp (FS s) (scan_post s) (scan_body s).
+    Proof.
+      intros Is. unfold Scan.scan_body.
+      eapply wp_bind; [apply (skip_ws_lf _ s Is) | exact (fun x => x) |].
+      intros s0 A0. cbv zeta. pose proof (adv_Inv _ _ A0) as I0.
+      destruct ((48 <=? ch s0) && (ch s0 <=? 57)) eqn:Ed.
+      { eapply wp_bind;
+          [apply wp_and_ret; [apply (scan_number_false_spec _ s0 I0); lia | apply scan_number_tok]
+          | exact (fun x => x) |].
+        intros [t s1] ((A1 & L1) & Ht). prj. adv_facts.
+        apply wp_finish; try assumption; try lia. intros ->. destruct Ht; discriminate. }
+      destruct (is_letter isLetterU (ch s0) || (ch s0 =? 36) || (ch s0 =? 35)) eqn:El.
+      { eapply wp_bind; [apply (scan_field_identifier_spec _ s0 I0) | exact (fun x => x) |].
+        intros [lit s1] (A1 & L1). prj.
+        assert (L : off s0 < off s1).
+        { apply L1. destruct (ch s0 =? 35) eqn:E35; [left; lia | right].
+          destruct (is_letter isLetterU (ch s0)) eqn:E1; [apply is_letter_ident; assumption|].
+          unfold is_ident_part. replace (ch s0 =? 36) with true by lia.
+          repeat rewrite orb_true_r. reflexivity. }
+        assert (FINI : forall t, t <> INTERPOLATION -> wp (FS s) (scan_post s) (finish t (off s0) true s1)).
+        { intros t Ht. adv_facts. apply wp_finish; try assumption; try lia. congruence. }
+        destruct (1 <? Z.of_nat (length lit)).
+        { apply FINI. unfold lookup.
+          repeat match goal with |- context [if ?b then _ else _] => destruct b end; discriminate. }
+        match goal with |- context [if ?b then _ else _] => destruct b eqn:Eb end.
+        { apply FINI. discriminate. }
+        apply default_case_spec; try assumption; try reflexivity.
+        - eapply adv_trans; eassumption.
+        - adv_facts; lia.
+        - lia.
+        - lia.
+        - right. lia. }
+      apply default_case_spec; try assumption; try reflexivity; try lia;
+        try (adv_facts; lia); try (left; reflexivity).
+    Qed.
+
+    Notation FA s := (G + 1 < 2 * mu s + 3).
+
+    Lemma attr_post_trans s s1 s2 : attr_post s s1 -> attr_post s1 s2 -> attr_post s s2.
+    Proof. unfold attr_post. intros (I1 & ? & ? & ?) (I2 & ? & ? & ?). ivs; lia. Qed.
+
+    Lemma attr_body_spec close s : Inv s -> wp (FA s) (attr_post s) (attr_body close s).
+    Proof.
+      intros Is. unfold Scan.attr_body.
+      eapply wp_bind; [apply (scan_rec_spec s Is) | lia |].
+      intros [r s1] (I1 & P1 & P2 & P3 & P4 & P5 & P6 & P7 & P8). prj.
+      assert (A1 : attr_post s s1) by (unfold attr_post; ivs; lia).
+      destruct (tok_beq (r_tok r) close); [exact A1|].
+      (* continue the loop from a state reached after a non-EOF token *)
+      assert (CONT : forall s2, r_tok r <> EOF -> attr_post s1 s2 ->
+                wp (FA s) (attr_post s) (attr_rec close s2)).
+      { intros s2 Hne (I2 & O2 & E2 & M2). specialize (P5 Hne).
+        eapply wp_weaken; [apply (attr_rec_spec close s2 I2) | lia |].
+        intros s3 A3. eapply attr_post_trans; [|exact A3]. unfold attr_post; ivs; lia. }
+      assert (REFL : attr_post s1 s1) by (unfold attr_post; ivs; lia).
+      assert (ERR : attr_post s1 (errf s1)).
+      { unfold attr_post, mu; prj. split; [apply Inv_errf; exact I1 | lia]. }
+      assert (NEST : forall cl, r_tok r <> EOF ->
+                wp (FA s) (attr_post s) (s2 <- attr_rec cl s1 ;; attr_rec close s2)).
+      { intros cl Hne. pose proof (P5 Hne).
+        eapply wp_bind; [apply (attr_rec_spec cl s1 I1) | lia |].
+        intros s2 A2. apply CONT; assumption. }
+      destruct (r_tok r) eqn:Et;
+        try (apply CONT; [discriminate | exact REFL]);
+        try (apply CONT; [discriminate | exact ERR]);
+        try (apply NEST; discriminate).
+      - (* EOF *) prj. eapply attr_post_trans; [exact A1 | exact ERR].
+      - (* INTERPOLATION *)
+        assert (Ie : Inv (errf s1)) by (apply Inv_errf; exact I1).
+        eapply wp_bind; [apply (pop_interp_spec _ (errf s1) Ie) | exact (fun x => x) |].
+        { prj. apply P7. reflexivity. }
+        intros [q s2] (_ & I2 & O2 & N2 & E2 & _). prj.
+        eapply wp_bind; [apply (recover_paren_lf _ 1 s2 I2) | exact (fun x => x) |].
+        intros s3 A3. apply CONT; [discriminate|].
+        adv_facts. unfold attr_post, mu. ivs; try lia;
+          replace (ins s3) with (ins s1) by congruence; lia.
+    Qed.
   End Body.
+
+  (* ---- the recursion: Scan / scanAttributeTokens with fuel ---- *)
+  Notation scan := (scan src isLetterU isDigitU scan_comments dont_insert).
+  Notation attr_tokens := (attr_tokens src isLetterU isDigitU scan_comments dont_insert).
+  Notation scan1 := (scan1 src isLetterU isDigitU scan_comments dont_insert).
+  Notation resume := (resume src).
+
+  Lemma mu_bounds s : Inv s -> 0 <= mu s <= 2 * len + 1.
+  Proof. intros []. unfold mu. destruct (ins s); lia. Qed.
+
+  Lemma scan_attr_spec f :
+    (forall s, Inv s -> wp (Z.of_nat f < 2 * mu s + 2) (scan_post s) (scan f s)) /\
+    (forall c s, Inv s -> wp (Z.of_nat f < 2 * mu s + 3) (attr_post s) (attr_tokens f c s)).
+  Proof.
+    induction f as [|f [IS IA]].
+    - split; intros; cbn [Scan.scan Scan.attr_tokens wp]; pose proof (mu_bounds s H); lia.
+    - split; intros.
+      + cbn [Scan.scan]. eapply wp_weaken;
+          [apply (scan_body_spec (scan f) (attr_tokens f) (Z.of_nat f) IS IA s H) | lia | auto].
+      + cbn [Scan.attr_tokens]. eapply wp_weaken;
+          [apply (attr_body_spec (scan f) (attr_tokens f) (Z.of_nat f) IS IA c s H) | lia | auto].
+  Qed.
+
+  (* One Scan call from any state satisfying the invariant: no panic, the fuel
+     [scan_fuel] = 4*len+8 is enough, and the postcondition holds. *)
+  Theorem scan1_spec s : Inv s -> wp False (scan_post s) (scan1 s).
+  Proof.
+    intros I. unfold Scan.scan1.
+    eapply wp_weaken; [apply (proj1 (scan_attr_spec _) s I) | | auto].
+    pose proof (mu_bounds s I). unfold scan_fuel, Scan.len in *. lia.
+  Qed.
+
+  Theorem scan_no_panic f s : Inv s -> scan f s <> Panic.
+  Proof.
+    intros I H. pose proof (proj1 (scan_attr_spec f) s I) as W. rewrite H in W. exact W.
+  Qed.
+
+  Theorem scan_fuel_enough f s : Inv s -> (2 * mu s + 2 <= Z.of_nat f) -> scan f s <> Fuel.
+  Proof.
+    intros I Hf H. pose proof (proj1 (scan_attr_spec f) s I) as W. rewrite H in W. cbn [wp] in W. lia.
+  Qed.
+
+  Theorem resume_total s : Inv s -> qs s <> [] -> wp False (resume_post s) (resume s).
+  Proof. intros. apply resume_spec; assumption. Qed.
+
+  (* ---- tokenisation: Init, then Scan until EOF ---- *)
+  Notation tokens_from := (tokens_from src isLetterU isDigitU scan_comments dont_insert).
+  Notation tokenize := (tokenize src isLetterU isDigitU scan_comments dont_insert).
+
+  (* token starts are non-decreasing and lie in [lo, len] *)
+  Fixpoint starts_from (lo : Z) (l : list res) : Prop :=
+    match l with
+    | [] => True
+    | r :: l' => lo <= r_start r <= len /\ starts_from (r_start r) l'
+    end.
+
+  (* every token that is not an inserted comma starts strictly before its successor *)
+  Fixpoint strict_starts (l : list res) : Prop :=
+    match l with
+    | r :: ((r2 :: _) as l') => (r_elided r = false -> r_start r < r_start r2) /\ strict_starts l'
+    | _ => True
+    end.
+
+  (* the sequence ends with its only EOF *)
+  Fixpoint eof_last (l : list res) : Prop :=
+    match l with
+    | [] => False
+    | [r] => r_tok r = EOF
+    | r :: l' => r_tok r <> EOF /\ eof_last l'
+    end.
+
+  Lemma starts_from_weaken lo lo' l : lo' <= lo -> starts_from lo l -> starts_from lo' l.
+  Proof. destruct l; simpl; intuition lia. Qed.
+
+  Definition toks_post (s : st) (l : list res) : Prop :=
+    starts_from (off s) l /\ strict_starts l /\ eof_last l /\
+    Z.of_nat (length l) <= mu s + 1 /\
+    (forall r, In r l -> r_elided r = true -> r_tok r = COMMA).
+
+  Lemma tok_beq_EOF t : tok_beq t EOF = true <-> t = EOF.
+  Proof. split; [apply internal_tok_dec_bl | apply internal_tok_dec_lb]. Qed.
+
+  Lemma tokens_from_spec n s : Inv s ->
+    wp (Z.of_nat n <= mu s) (toks_post s) (tokens_from n s).
+  Proof.
+    revert s. induction n as [|n IH]; intros s I.
+    { simpl. pose proof (mu_bounds s I). lia. }
+    cbn [Scan.tokens_from].
+    eapply wp_bind; [apply (scan1_spec s I) | intros [] |].
+    intros [r s1] (I1 & P1 & P2 & P3 & P4 & P5 & P6 & P7 & P8). prj.
+    pose proof (inv_rd _ I1). pose proof (inv_off_rd _ I1). pose proof (mu_bounds s1 I1).
+    destruct (tok_beq (r_tok r) EOF) eqn:Et.
+    { apply tok_beq_EOF in Et. unfold toks_post. simpl.
+      repeat split; try lia; try assumption. intros r0 [<-|[]]. exact P8. }
+    assert (Hne : r_tok r <> EOF).
+    { intros Heq. apply tok_beq_EOF in Heq. congruence. }
+    specialize (P5 Hne).
+    eapply wp_bind; [apply (IH s1 I1) | lia |].
+    intros rest (R1 & R2 & R3 & R4 & R5). unfold toks_post. cbn [wp].
+    split; [|split; [|split; [|split]]].
+    - simpl. split; [lia|]. eapply starts_from_weaken; [|exact R1]. lia.
+    - destruct rest as [|r2 rest']; [exact Logic.I|]. split; [|exact R2].
+      intros He. specialize (P6 Hne He). simpl in R1. lia.
+    - destruct rest as [|r2 rest']; [destruct R3|]. split; [exact Hne | exact R3].
+    - simpl length. lia.
+    - intros r0 [<-|Hin]; [exact P8 | apply R5; exact Hin].
+  Qed.
+
+  (* Tokenising a whole file terminates within 2*len+2 Scan calls (the fuel
+     given to [tokenize] is never exhausted), never panics, and yields starts
+     that are monotone and within [0, len]. *)
+  Theorem tokenize_total :
+    wp False (fun l => starts_from 0 l /\ strict_starts l /\ eof_last l /\
+                       Z.of_nat (length l) <= 2 * len + 2 /\
+                       (forall r, In r l -> r_elided r = true -> r_tok r = COMMA)) tokenize.
+  Proof.
+    unfold Scan.tokenize.
+    eapply wp_bind; [apply Inv_init | auto |].
+    intros s I. pose proof (mu_bounds s I).
+    eapply wp_weaken; [apply (tokens_from_spec _ s I) | unfold Scan.len in *; lia |].
+    intros l (R1 & R2 & R3 & R4 & R5).
+    repeat split; try assumption; try lia.
+    eapply starts_from_weaken; [|exact R1]. exact (inv_off _ I).
+  Qed.
+
+  (* ---- arbitrary client scripts of Scan / ResumeInterpolation calls ---- *)
+  Notation run_ops := (run_ops src isLetterU isDigitU scan_comments dont_insert).
+  Notation run := (run src isLetterU isDigitU scan_comments dont_insert).
+
+  Definition run_fine (r : run_result) : Prop :=
+    match r with RunOk _ | RunMisuse _ => True | RunPanic _ | RunFuel _ => False end.
+
+  Lemma run_ops_total ops : forall s acc, Inv s -> run_fine (run_ops ops s acc).
+  Proof.
+    induction ops as [|o ops IH]; intros s acc I; cbn [Scan.run_ops]; [exact Logic.I|].
+    destruct o.
+    - pose proof (scan1_spec s I) as W.
+      destruct (scan1 s) as [[t s1]| |]; cbn [wp] in W; [| destruct W | destruct W].
+      apply IH. destruct W as (I1 & _). exact I1.
+    - destruct (qs s) as [|q r] eqn:Eq; [exact Logic.I|].
+      assert (Hq : qs s <> []) by congruence.
+      pose proof (resume_total s I Hq) as W.
+      destruct (resume s) as [s1| |]; cbn [wp] in W; [| destruct W | destruct W].
+      apply IH. destruct W as (I1 & _). exact I1.
+  Qed.
+
+  (* From Init, no sequence of Scan / ResumeInterpolation calls can make the
+     scanner panic or loop; the only failure is the API misuse of resuming with
+     no open interpolation. *)
+  Theorem run_total ops : run_fine (run ops).
+  Proof.
+    unfold Scan.run. pose proof Inv_init as W.
+    destruct (init src) as [s| |]; cbn [wp] in W; [| destruct W | destruct W].
+    apply run_ops_total. exact W.
+  Qed.
 End Proofs.
